@@ -48,6 +48,9 @@ def explain(meta, model_out):
         if set(g['ctx']) & LOSSY_CTX:
             ids.add('flex-grid-fragmentation-loses-content')
             lost_words |= ws
+        elif 'columns' in g['ctx'] and 'column-span' in meta.get('features', ()) and i in bad and not duplicated:
+            ids.add('column-span-loses-following-content')
+            lost_words |= ws
         elif duplicated and i in bad and 'float' in g['ctx']:
             ids.add('float-fragment-duplicated')
         elif i in bad and {'footnote', 'columns'} <= set(g['ctx']):
@@ -67,7 +70,8 @@ def explain(meta, model_out):
         proj = [w for w in flat if w in set(ws)]
         if proj != ws and not ids:
             return None
-        if proj != ws and 'flex-grid-fragmentation-loses-content' not in ids:
+        if proj != ws and not ({'flex-grid-fragmentation-loses-content',
+                                'column-span-loses-following-content'} & ids):
             return None
     if not ids:
         return None
